@@ -165,12 +165,17 @@ namespace {
     return scope_value(post.xact);
   }
 
+  // The postings of a periodic transaction have no parent transaction, and
+  // automated transactions are applied to them as well
+
   value_t get_xact_id(post_t& post) {
+    if (! post.xact)
+      return NULL_VALUE;
     return static_cast<long>(post.xact_id());
   }
 
   value_t get_code(post_t& post) {
-    if (post.xact->code)
+    if (post.xact && post.xact->code)
       return string_value(*post.xact->code);
     else
       return NULL_VALUE;
@@ -182,9 +187,9 @@ namespace {
 
   value_t get_note(post_t& post)
   {
-    if (post.note || post.xact->note) {
+    if (post.note || (post.xact && post.xact->note)) {
       string note = post.note ? *post.note : empty_string;
-      note += post.xact->note ? *post.xact->note : empty_string;
+      note += (post.xact && post.xact->note) ? *post.xact->note : empty_string;
       return string_value(note);
     } else {
       return NULL_VALUE;
@@ -192,6 +197,8 @@ namespace {
   }
 
   value_t get_magnitude(post_t& post) {
+    if (! post.xact)
+      return NULL_VALUE;
     return post.xact->magnitude();
   }
 
@@ -379,7 +386,9 @@ namespace {
     post_t& post(args.context<post_t>());
     expr_t::ptr_op_t expr(args.get<expr_t::ptr_op_t>(0));
 
-    foreach (post_t * p, post.xact->posts) {
+    // without a parent transaction the posting is judged on its own
+    posts_list own_post(1, &post);
+    foreach (post_t * p, post.xact ? post.xact->posts : own_post) {
       bind_scope_t bound_scope(args, *p);
       if (p == &post && args.has<expr_t::ptr_op_t>(1) &&
           ! args.get<expr_t::ptr_op_t>(1)
@@ -401,7 +410,9 @@ namespace {
     post_t& post(args.context<post_t>());
     expr_t::ptr_op_t expr(args.get<expr_t::ptr_op_t>(0));
 
-    foreach (post_t * p, post.xact->posts) {
+    // without a parent transaction the posting is judged on its own
+    posts_list own_post(1, &post);
+    foreach (post_t * p, post.xact ? post.xact->posts : own_post) {
       bind_scope_t bound_scope(args, *p);
       if (p == &post && args.has<expr_t::ptr_op_t>(1) &&
           ! args.get<expr_t::ptr_op_t>(1)
